@@ -24,7 +24,7 @@ ASSUMPTIONS = ["values of the NUC/NIC/NAC/SIL tables are not compared with DO-26
                "totality, arity and monotonicity are monitored", "heading/track label polarity of target_angle is not asserted: "
                "only that it is a function of ME bit 37 taking two distinct values", "TC28 reserved emergency states 6-7 and "
                "subtype 0 with non-zero state bits are not judged for is_emergency"]
-REQUIRED = ["tc28", "tc28_every_squawk_x_state", "emergency_true", "emergency_false", "v2_alt", "v2_baro", "v2_hdg_neg", "v2_hdg_none", "v2_modes_off", "v2_modes_on",
+REQUIRED = ["tc28", "mixed_supplement_types", "tc28_every_squawk_x_state", "emergency_true", "emergency_false", "v2_alt", "v2_baro", "v2_hdg_neg", "v2_hdg_none", "v2_modes_off", "v2_modes_on",
             "v1_alt", "v1_angle", "v1_modes", "v1_tcas", "tc31", "tc19q", "lookups", "mismatch_v1_on_v2", "mismatch_v2_on_v1"]
 
 V2_ONLY = ["selected_altitude", "baro_pressure_setting", "selected_heading", "autopilot", "vnav_mode", "altitude_hold_mode",
@@ -343,6 +343,21 @@ def m_lookups(ctx, case):
                             ctx.violation("lookup-differs-for-bool-supplement", api="nic_v2", frame=hx, tc=tc, nica=s, nicbc=b,
                                           with_int=r[1:], with_bool=rb[1:])
                         ctx.hit("bool_supplements")
+                        # the two supplements come from different places (NICa from an operational-status message decoded
+                        # earlier - an int or numpy integer -, NICbc typed in or read from a file - a string): every MIX of
+                        # the accepted forms means the same
+                        import numpy as _np
+                        forms = (int, str, bool, _np.int64, _np.uint8)
+                        for fa in forms:
+                            for fb in forms:
+                                if fa is fb:
+                                    continue
+                                rm = call(adsb.nic_v2, hx, fa(s), fb(b))
+                                ctx.ev()
+                                if rm != r:
+                                    ctx.violation("lookup-differs-for-mixed-supplement-types", api="nic_v2", frame=hx, tc=tc, nica=repr(fa(s)),
+                                                  nicbc=repr(fb(b)), with_ints=r[1:], mixed=rm[1:])
+                        ctx.hit("mixed_supplement_types")
             if 9 <= tc <= 18:
                 r = call(adsb.nic_b, hx)
                 ctx.ev()
